@@ -865,7 +865,8 @@ def deep_nest(rng, depth):
     elif k == 6:
         return "T :: " + "^" * depth + "i32;\nmain :: () {}\n"
     else:
-        return "T :: " + "[2]" * min(depth, 20) + "u8;\nmain :: () { x : T; }\n"
+        # (2^14 bytes; the 2^20-byte version compiles for ~1 min and ends in CodeTooLarge: corpus/C06)
+        return "T :: " + "[2]" * min(depth, 14) + "u8;\nmain :: () { x : T; }\n"
     return "main :: () {\n    x := %s;\n}\n" % e
 
 
@@ -978,6 +979,7 @@ def run_capy(capy, files, root="main.capy", args=("--no-exec",), timeout=10.0, m
         out = out.decode("utf-8", "replace")
         slow = to or cpu > timeout
         kind, site, msg = classify_output(rc, out, False)
+        plain = (kind, site, msg)
         if slow:
             msg = "cpu %.1fs; outcome when left running: %s %s %s" % (cpu, kind, site, msg)
             kind, site = "timeout", "timeout"
@@ -988,12 +990,47 @@ def run_capy(capy, files, root="main.capy", args=("--no-exec",), timeout=10.0, m
             obj = open(op, "rb").read()
         exe = os.path.join(d, "out", stem)
         res = {"rc": rc, "kind": kind, "site": site, "msg": msg, "out": out, "obj": obj, "timed_out": slow,
-               "retried": retried, "exe": os.path.exists(exe), "cpu": cpu}
+               "retried": retried, "exe": os.path.exists(exe), "cpu": cpu, "killed": to, "plain": plain}
         if keep:
             res.update(keep(d, res))
         return res
     finally:
         shutil.rmtree(d, ignore_errors=True)
+
+
+def msg_sig(msg):
+    """panic message without the parts that vary between inputs (numbers, quoted names, expression ids)."""
+    m = re.sub(r"`[^`]*`", "`_`", msg or "")
+    m = re.sub(r"\d+", "N", m)
+    m = re.sub(r"\s+", " ", m).strip()
+    return m[:48]
+
+
+def canon_panic_class(known, cls, msg, tolerance=30):
+    """Classes of crashes are `<prefix>:<file>:<line>`.  Hooks and repairs in /repo shift line numbers, so a
+    class that is not literally known is mapped to a known class of the SAME file with the SAME message
+    signature whose line is at most `tolerance` lines away; anything else stays a new class."""
+    m = re.match(r"^((?:panic|noerr-codegen-panic):)(.*):(\d+)$", cls)
+    if not m:
+        return cls
+    if any(f.get("class") == cls for f in known):
+        return cls
+    pre, path, line = m.group(1), m.group(2), int(m.group(3))
+    sig = msg_sig(msg)
+    best = None
+    for f in known:
+        km = re.match(r"^((?:panic|noerr-codegen-panic):)(.*):(\d+)$", f.get("class", ""))
+        if not km or km.group(2) != path:
+            continue
+        kmsg = (f.get("witness") or {}).get("message") or ""
+        if msg_sig(kmsg) != sig:
+            continue
+        d = abs(int(km.group(3)) - line)
+        if d <= tolerance and (best is None or d < best[0]):
+            best = (d, km.group(3))
+    if best:
+        return "%s%s:%s" % (pre, path, best[1])
+    return cls
 
 
 def strip_timing(out):
